@@ -255,7 +255,7 @@ set_option maxRecDepth 100000 in
     `extendsEst` of the abstract protocol is not implemented by lib/grandpa. -/
 theorem C22_lib_rounds_counterexample :
     forkCfg.byz = [] ∧
-    (let w := forkOps.foldl (Sim.step forkCfg) { vs := List.replicate forkCfg.n {} }
+    (let w := forkOps.foldl (Sim.step forkCfg) { vs := List.replicate forkCfg.n {}, sets := [List.range forkCfg.n] }
      Sim.safeB forkCfg w = false ∧ (Sim.getV w 0).fins = [2] ∧ (Sim.getV w 1).fins = [3, 1] ∧
        w.estViol = true ∧ w.otherViol = false) ∧
     ¬ (parentOrder forkCfg.ps).comparable 2 3 := by
